@@ -431,7 +431,7 @@ Level:
 		switch trimmed {
 		case "help":
 			osenv.Logf("TODO: print --info/--debug help and exit")
-			os.Exit(0)
+			return errHelpRequested
 		case "none":
 			lev = 0
 		case "all":
@@ -1309,6 +1309,18 @@ func NewContext(opts *Options) *Context {
 	}
 }
 
+var errHelpRequested = errors.New("help requested")
+
+// exit terminates the process like the rsync command line tool does, or
+// returns an *ExitError if that is not acceptable (see Context.ErrorOnExit).
+func (pc *Context) exit(code int) error {
+	if pc.ErrorOnExit {
+		return &ExitError{Code: code}
+	}
+	os.Exit(code)
+	return nil
+}
+
 // rsync/options.c:parse_arguments
 func (pc *Context) ParseArguments(osenv *rsyncos.Env, args []string) error {
 	// NOTE: We do not implement support for refusing options per rsyncd.conf
@@ -1347,9 +1359,10 @@ func (pc *Context) ParseArguments(osenv *rsyncos.Env, args []string) error {
 			table := opts.daemonTable()
 			table = slices.Concat(opts.GokrazyDaemon.table(), table)
 			pc := Context{
-				Options: opts,
-				table:   table,
-				args:    args,
+				Options:     opts,
+				table:       table,
+				args:        args,
+				ErrorOnExit: pc.ErrorOnExit,
 			}
 
 			for {
@@ -1365,8 +1378,13 @@ func (pc *Context) ParseArguments(osenv *rsyncos.Env, args []string) error {
 				// are returned and handled here.
 				switch opt {
 				case 'h':
-					fmt.Println(opts.DaemonHelp()) // tridge rsync prints help to stdout
-					os.Exit(0)                     // exit with code 0 for compatibility with tridge rsync
+					if !pc.ErrorOnExit {
+						fmt.Println(opts.DaemonHelp()) // tridge rsync prints help to stdout
+					}
+					// exit with code 0 for compatibility with tridge rsync
+					if err := pc.exit(0); err != nil {
+						return err
+					}
 				case 'M':
 					return errNotYetImplemented
 
@@ -1491,10 +1509,18 @@ func (pc *Context) ParseArguments(osenv *rsyncos.Env, args []string) error {
 			return errNotYetImplemented
 
 		case OPT_INFO:
-			parseOutputWords(osenv, infoWords[:], opts.info[:], pc.poptGetOptArg(), USER_PRIORITY)
+			if err := parseOutputWords(osenv, infoWords[:], opts.info[:], pc.poptGetOptArg(), USER_PRIORITY); err == errHelpRequested {
+				if err := pc.exit(0); err != nil {
+					return err
+				}
+			}
 
 		case OPT_DEBUG:
-			parseOutputWords(osenv, debugWords[:], opts.debug[:], pc.poptGetOptArg(), USER_PRIORITY)
+			if err := parseOutputWords(osenv, debugWords[:], opts.debug[:], pc.poptGetOptArg(), USER_PRIORITY); err == errHelpRequested {
+				if err := pc.exit(0); err != nil {
+					return err
+				}
+			}
 
 		case OPT_USERMAP,
 			OPT_GROUPMAP,
@@ -1502,8 +1528,13 @@ func (pc *Context) ParseArguments(osenv *rsyncos.Env, args []string) error {
 			return errNotYetImplemented
 
 		case OPT_HELP:
-			fmt.Println(opts.Help()) // tridge rsync prints help to stdout
-			os.Exit(0)               // exit with code 0 for compatibility with tridge rsync
+			if !pc.ErrorOnExit {
+				fmt.Println(opts.Help()) // tridge rsync prints help to stdout
+			}
+			// exit with code 0 for compatibility with tridge rsync
+			if err := pc.exit(0); err != nil {
+				return err
+			}
 
 		case 'A':
 			return fmt.Errorf("ACLs are not supported by gokrazy/rsync")
@@ -1525,16 +1556,28 @@ func (pc *Context) ParseArguments(osenv *rsyncos.Env, args []string) error {
 	// other options
 
 	if version_opt_cnt > 0 {
-		fmt.Println(version.Read())
-		os.Exit(0)
+		if !pc.ErrorOnExit {
+			fmt.Println(version.Read())
+		}
+		if err := pc.exit(0); err != nil {
+			return err
+		}
 	}
 
 	if opts.human_readable > 1 && len(args) == 1 /* && !am_server */ {
-		fmt.Println(opts.Help()) // tridge rsync prints help to stdout
-		os.Exit(0)               // exit with code 0 for compatibility with tridge rsync
+		if !pc.ErrorOnExit {
+			fmt.Println(opts.Help()) // tridge rsync prints help to stdout
+		}
+		// exit with code 0 for compatibility with tridge rsync
+		if err := pc.exit(0); err != nil {
+			return err
+		}
 	}
 
 	if err := opts.setOutputVerbosity(DEFAULT_PRIORITY); err != nil {
+		if pc.ErrorOnExit {
+			return err
+		}
 		// TODO: plumb error
 		fmt.Println(err.Error())
 		os.Exit(1)
